@@ -29,12 +29,15 @@ def plan(tier, seed):
         for e in (-4, 2):
             regs.append('c19::Sqrt<cnl::scaled_integer<%s, cnl::power<%d, 10>>, %d, 2, %d, 10>::reg("scaled10|%s|%d")' % (rep, e, d, e, rep.replace('vf::', ''), e))
     cases = 20000 if quick else 500000
-    enum_max = 2 ** 16 if quick else 2 ** 32
+    enum_max = 2 ** 16 if quick else 2 ** 24
     units = [Unit('C19-gxx-%d' % i, 'gxx', 'props/C19.h', part, rc_cases=cases, enum_max=enum_max, chunk=12)
              for i, part in enumerate(split(regs, 14))]
     cl = [r for r in regs if '"int|' in r or 'elastic|40|' in r or 'wide|200' in r]
     units.append(Unit('C19-clang', 'clang', 'props/C19.h', cl, rc_cases=cases, enum_max=enum_max, chunk=12))
+    if not quick:
+        # every value of the 31/32-digit built-in types (2^31 / 2^32 cases each), striped over 16 processes
+        units.append(Unit('C19-gxx-full32', 'gxx', 'props/C19.h', [r for r in regs if '"int|int"' in r or '"int|unsigned"' in r], rc_cases=0, enum_max=2 ** 32, chunk=2))
     p = dict(units=units, rule=RULE, assumptions=['termination is "within 1e5 iterations of the instrumented loops"'])
     if not quick:
-        p['stripes'] = {u.name: 4 for u in units}
+        p['stripes'] = {u.name: (16 if u.name.endswith('full32') else 4) for u in units}
     return p
